@@ -33,8 +33,11 @@ SECTOR = 512
 
 
 def build_footer(size, data_offset, disk_type, features=2):
+    # original_size is the size at creation; current_size is the size of the disk.  They differ once a disk was resized
+    # (derived from the size so that the serialiser stays a function of its arguments)
+    original = [size, size, max(512, size // 2), size + 1048576][(size // 512) % 4]
     f = struct.pack(">8sIIQIIIIQQIII16sB", b"conectix", features, 0x00010000, data_offset, 0, 0x76706320, 0x00050003,
-                    0x5769326B, size, size, 0, disk_type, 0, b"\x11" * 16, 0)
+                    0x5769326B, original, size, 0, disk_type, 0, b"\x11" * 16, 0)
     return f + b"\x00" * (511 - len(f))
 
 
